@@ -132,6 +132,43 @@ class Ctx:
                          'expected %s call site(s) of `%s`, found %d' % (('exactly %d' % exact) if exact is not None else ('at least %d' % floor), pname, n), f, f.line)
         return [cpoint(c) for c in cs]
 
+    def atomic_sites(self, f, op, field, floor=1, exact=None, value=None):
+        """call sites of Atomic::<op> (store/load/swap/..) on the field whose description ends with `field`."""
+        if f is None:
+            return []
+        S = core.sym(f)
+        out = []
+        for c in f.calls_to('Atomic::' + op):
+            d = S.describe(S.operand(c.t['a'][0])) if c.t['a'] else ''
+            if d == field or d.endswith('.' + field):
+                if value is not None:
+                    a = c.t['a'][1] if len(c.t['a']) > 1 else None
+                    if not (a and a[0] == 'k' and a[2] == value):
+                        continue
+                out.append(cpoint(c, 'atomic %s %s' % (op, field)))
+        n = len(out)
+        self.per_rule[self.rule]['sites'] += n
+        ok = n >= floor and (exact is None or n == exact)
+        self._ob(ok, self.sample('sites', f, f.line, '%d atomic %s site(s) on %s' % (n, op, field)))
+        if not ok:
+            self.violate('floor|%s|atomic %s %s' % (f.path, op, field), 'expected %s atomic %s of `%s`%s, found %d' % (('exactly %d' % exact) if exact is not None else ('at least %d' % floor), op, field, '' if value is None else ' with value %r' % value, n), f, f.line)
+        return out
+
+    def after_success_from(self, f, a_points, callee, targets, what=None):
+        """from each call site A (of callee), targets are reachable only through A's Ok/Some edge."""
+        if f is None:
+            return
+        edges = core.guard_edges(f, [Guard(call=callee, vals={'Ok', 'Some', 'true'})])
+        for a in a_points:
+            r = core.reach(f, start=(a.bb, a.idx - 1 if not a.is_term else a.idx), cut_edges=edges) if False else core.reach(f, start=(a.bb, len(f.blocks[a.bb]['s']) - 1), cut_edges=edges)
+            for t in targets:
+                hit = self._reached(f, r, t)
+                desc = what or ('%s reachable from %s only through its success edge' % (t.desc, a.desc))
+                self._ob(not hit and bool(edges), self.sample('after-success', f, t.line, desc))
+                if hit or not edges:
+                    self.violate('after-success|%s|%s|%s' % (f.path, a.desc, t.desc), 'AFTER-SUCCESS violated: %s reachable after %s without crossing its success edge' % (t.desc, a.desc), f, t.line,
+                                 core.path_lines(f, core.find_path(f, t.bb, cut_edges=edges, start=(a.bb, 0))))
+
     def stores(self, f, field, owner=None, family=False, floor=1, value=None):
         """statement points storing to `<owner>.<field>` (last projection = field)."""
         if f is None:
